@@ -114,6 +114,24 @@ Proof.
     apply (stop_close_shut st (set_room (cs_sendroom st - 1) st) Hok); auto.
 Qed.
 
+(* a call req accepted by parseInboundFragment carries a known checksum type: the pool lookup
+   checksumType.New() in handleCallReq cannot go out of range *)
+Lemma pif_ctype_known payload ct : bytes_ok payload = true -> parse_inbound_fragment payload = (0, ct) -> ck_new ct <> None.
+Proof.
+  intros Hb. unfold parse_inbound_fragment. destruct (r_u8 (rb payload)) as [flags r0] eqn:E0.
+  assert (B0 : bytes_ok (rrem r0) = true).
+  { pose proof (suffix_bytes_ok r_u8 (rb payload) (suffix_uint 1) Hb) as X. rewrite E0 in X. exact X. }
+  pose proof (suffix_bytes_ok r_callreq r0 suffix_callreq B0) as B1.
+  destruct (rerr (snd (r_callreq r0))); [discriminate|].
+  destruct (r_u8 (snd (r_callreq r0))) as [c r2] eqn:E1.
+  pose proof (r_u8_range _ _ _ B1 E1) as Rct.
+  destruct (c >=? c_checksumCount) eqn:G; [discriminate|].
+  destruct (r_bytes (Z.to_nat (ChecksumSize c)) r2) as [ck r3]. destruct (rerr r3); [discriminate|].
+  intros H. inversion H; subst. unfold ck_new.
+  replace ((ct <? 0) || (ct >=? c_checksumCount)) with false by lia.
+  destruct (ct =? c_ChecksumTypeCrc32); [discriminate|]. destruct (ct =? c_ChecksumTypeCrc32C); discriminate.
+Qed.
+
 (* ---------------- the outcomes of one reader iteration ---------------- *)
 Inductive outcome (st : cstate) (mt id : Z) (payload : list Z) : cstate -> list effect -> Prop :=
 | O_drop : frame_legal st mt id payload = false -> outcome st mt id payload st [Drop]
@@ -127,7 +145,7 @@ Inductive outcome (st : cstate) (mt id : Z) (payload : list Z) : cstate -> list 
 | O_pong : mt = c_messageTypePingReq -> cs_state st = c_connectionActive -> cs_sendroom st > 0 ->
     outcome st mt id payload (set_room (cs_sendroom st - 1) st) [SendFrame c_messageTypePingRes id 0]
 | O_dispatch f : mt = c_messageTypeCallReq -> cs_state st = c_connectionActive -> cs_stopped st = false ->
-    mx_lookup id (cs_in st) = None -> parse_frag_payload c_messageTypeCallReq payload = (0, f) ->
+    mx_lookup id (cs_in st) = None -> parse_inbound_fragment payload = (0, f) ->
     outcome st mt id payload (set_in ((id, mx_new) :: cs_in st) st) [Dispatch id]
 | O_fwd_in m m' ok : mt = c_messageTypeCallReqContinue -> mx_lookup id (cs_in st) = Some m -> mex_forward m = (m', ok) ->
     outcome st mt id payload (set_in (mx_put id m' (cs_in st)) st) [if ok then Deliver id else Drop]
@@ -162,15 +180,15 @@ Proof.
   { (* call req *)
     assert (mt = c_messageTypeCallReq) by lia. subst mt. unfold handle_call_req.
     destruct (cs_state st =? c_connectionActive) eqn:A.
-    - destruct (parse_frag_payload c_messageTypeCallReq payload) as [code f] eqn:P.
+    - destruct (parse_inbound_fragment payload) as [code f] eqn:P.
       destruct (negb (code =? 0)) eqn:C.
       + intros H. inversion H; subst. apply O_drop. unfold frame_legal. rewrite T1, P. cbn [fst]. lia.
       + assert (code = 0) by lia. subst code.
         destruct (cs_stopped st || match mx_lookup id (cs_in st) with Some _ => true | None => false end) eqn:D.
         * intros H. destruct (protocol_error_shut st id st' es Hok H) as [S E].
           apply O_close; [|exact S|exact E]. unfold frame_legal, has. rewrite T1. lia.
-        * destruct (parsed_ctype_known _ _ _ Hb P) as [_ Hn].
-          destruct (ck_new (f_ctype f)) eqn:K; [|congruence].
+        * pose proof (pif_ctype_known _ _ Hb P) as Hn.
+          destruct (ck_new f) eqn:K; [|congruence].
           intros H. inversion H; subst. apply orb_false_iff in D. destruct D as [D1 D2].
           apply (O_dispatch st _ id payload f); auto; [lia|].
           destruct (mx_lookup id (cs_in st)); [discriminate|reflexivity].
@@ -308,7 +326,7 @@ Qed.
 
 Lemma outcome_dispatch st mt id payload st' es i : outcome st mt id payload st' es -> In (Dispatch i) es ->
   i = id /\ es = [Dispatch id] /\ mt = c_messageTypeCallReq /\ cs_state st = c_connectionActive /\ cs_stopped st = false /\
-  mx_lookup id (cs_in st) = None /\ exists f, parse_frag_payload c_messageTypeCallReq payload = (0, f).
+  mx_lookup id (cs_in st) = None /\ exists ct, parse_inbound_fragment payload = (0, ct).
 Proof.
   intros O Hin. destruct O; cbn in Hin.
   - destruct Hin as [F|[]]; discriminate.
@@ -421,7 +439,7 @@ Qed.
 Theorem handle_frame_dispatch st hdr body st' es i : state_ok st -> bytes_ok body = true ->
   handle_frame st hdr body = (st', es) -> In (Dispatch i) es ->
   exists h payload rest f, frame_read_body hdr body = (0, h, payload, rest) /\ fh_type h = c_messageTypeCallReq /\ fh_id h = i /\
-    parse_frag_payload c_messageTypeCallReq payload = (0, f) /\
+    parse_inbound_fragment payload = (0, f) /\
     cs_state st = c_connectionActive /\ cs_stopped st = false /\ mx_lookup i (cs_in st) = None /\ es = [Dispatch i].
 Proof.
   intros Hok Hb H Hin. destruct (handle_frame_cases _ _ _ _ _ Hok Hb H) as [code [h [payload [rest [F [[_ [E S]]|[C O]]]]]]].
